@@ -720,11 +720,30 @@ def _r3_labels(ctx):
                     vals.add(("const", cv))
         always_default[p] = vals
 
-    def infeasible(test, params_vals):
-        # `if p:` where every caller leaves p at a falsy constant
-        if isinstance(test, ast.Name) and test.id in params_vals:
-            vs = params_vals[test.id]
-            return all(k in ("default", "const") and not v for k, v in vs)
+    def infeasible(test, params_vals, fi=None, depth=0):
+        # `if p:` where every caller leaves p at a falsy constant - also when p is re-assigned falsy values only, through
+        # locals defined from such a parameter (`flag = p and <anything>`) and through `and` / `or`
+        if isinstance(test, ast.Constant):
+            return not test.value
+        if isinstance(test, ast.BoolOp) and depth < 4:
+            parts = [infeasible(v, params_vals, fi, depth + 1) for v in test.values]
+            return any(parts) if isinstance(test.op, ast.And) else all(parts)
+        if isinstance(test, ast.Name) and depth < 4:
+            defs = []
+            if fi is not None:
+                for s_ in walk_stmts(fi.node.body):
+                    if isinstance(s_, ast.Assign) and any(isinstance(t_, ast.Name) and t_.id == test.id for t_ in s_.targets):
+                        defs.append(s_.value)
+                    elif isinstance(s_, (ast.AugAssign, ast.For, ast.With)) and any(
+                            isinstance(n_, ast.Name) and n_.id == test.id and isinstance(n_.ctx, ast.Store) for n_ in ast.walk(s_)):
+                        return False
+            if test.id in params_vals:
+                vs = params_vals[test.id]
+                if not all(k in ("default", "const") and not v for k, v in vs):
+                    return False
+                return all(infeasible(d_, params_vals, fi, depth + 1) for d_ in defs)
+            if defs and (fi is None or test.id not in fi.params):
+                return all(infeasible(d_, params_vals, fi, depth + 1) for d_ in defs)
         return False
 
     def int_addressed(fi2):
@@ -755,7 +774,7 @@ def _r3_labels(ctx):
         two arms of a branch are joined by union."""
         for s in body:
             if isinstance(s, ast.If):
-                if infeasible(s.test, pv):
+                if infeasible(s.test, pv, fi):
                     ctx.holds(fi, s, "%s: branch `if %s` pruned: no caller can enable it" % (what, norm_text(s.test)))
                     scan(fi, s.orelse, labelled, pv, what)
                     continue
